@@ -1119,12 +1119,9 @@ class VM:
 
         if isinstance(obj, JSTypedArray):
             # Typed array index access
-            try:
-                idx = int(key_str)
-                if idx >= 0:
-                    return obj.get_index(idx)
-            except ValueError:
-                pass
+            numeric, idx = self._typed_array_index(key_str)
+            if numeric:
+                return obj.get_index(idx) if idx is not None else UNDEFINED
             if key_str == "length":
                 return obj.length
             if key_str == "BYTES_PER_ELEMENT":
@@ -1289,6 +1286,23 @@ class VM:
             return UNDEFINED
 
         return UNDEFINED
+
+    def _typed_array_index(self, key_str: str) -> Tuple[bool, Optional[int]]:
+        """Classify a property key of a typed array.
+
+        (True, i) for the integer index i, (True, None) for any other canonical
+        numeric string ("-1", "1.5", "-0", "NaN": reads yield undefined, writes
+        are ignored), (False, None) for an ordinary property name."""
+        if key_str.isascii() and key_str.isdigit() and (key_str == "0" or key_str[0] != "0"):
+            return True, int(key_str)
+        if key_str == "-0":
+            return True, None
+        number = to_number(key_str)
+        if to_string(number) != key_str:
+            return False, None
+        if isinstance(number, float) and not number.is_integer():
+            return True, None  # fraction, NaN or an infinity
+        return True, (int(number) if number >= 0 else None)
 
     def _make_array_method(self, arr: JSArray, method: str) -> Any:
         """Create a bound array method."""
@@ -2381,13 +2395,12 @@ class VM:
         key_str = self._to_property_key(key)
 
         if isinstance(obj, JSTypedArray):
-            try:
-                idx = int(key_str)
-                if idx >= 0:
-                    obj.set_index(idx, self._to_number(value))
-                    return
-            except ValueError:
-                pass
+            numeric, idx = self._typed_array_index(key_str)
+            if numeric:
+                number = self._to_number(value)
+                if idx is not None:
+                    obj.set_index(idx, number)
+                return  # a numeric key that is no valid index is ignored
             obj.set(key_str, value)
             return
 
